@@ -207,8 +207,53 @@ theorem strOf_P2 (tc : Str) (altK : Alt) :
   · simp only [hK, if_false]
     cases tc <;> simp [strOf]
 
+/-- no opening placeholder of a good text closes with a placeholder that does not occur in it: every opening
+placeholder is followed by its own closing one, and the entry of a closing placeholder is not an opening entry -/
+theorem Good.no_open_closing {st : PhSt} {de : List (Nat × Tree)} {ks : List Tree} {alt : Alt}
+    (h : Good st de ks alt) (hT : TableOK st) (hC : Closed st) (C : Nat) (hno : ∀ x ∈ alt, x.1.toNat ≠ C) :
+    ∀ x ∈ alt, ∀ e, st.entryOf x.1.toNat = some e → ¬ (e.role = .open ∧ e.closePh = some C) := by
+  induction h with
+  | nil => intro x hx; cases hx
+  | fmt c rest o cl eo obj altK altR h1 h2 h3 _ _ _ _ _ _ _ _ _ _ _ ihK ihR =>
+    intro x hx e he hbad
+    simp only [List.mem_cons, List.mem_append] at hx
+    rcases hx with (rfl | hx) | (rfl | hx)
+    · -- the opening placeholder of this child: it closes with `cl`, which occurs in the text
+      simp only at he
+      rw [h1] at he
+      injection he with he
+      subst he
+      rw [h3] at hbad
+      have : cl.toNat = C := Option.some.inj hbad.2
+      exact hno (cl, strOf c.payload.tail) (by simp) this
+    · exact ihK (fun y hy => hno y (by simp [hy])) x hx e he hbad
+    · -- the closing placeholder: its entry is a closing entry
+      simp only at he
+      have hm : eo ∈ st.table := List.mem_of_find?_eq_some h1
+      obtain ⟨k, e', hk, he', hph, hr⟩ := hC.oc eo hm h2
+      rw [h3] at hk
+      have hk' : cl.toNat = k := Option.some.inj hk
+      have := entryOf_of_mem st hT e' he'
+      rw [hph, ← hk', he] at this
+      injection this with this
+      subst this
+      rw [hr] at hbad
+      exact absurd hbad.1 (by decide)
+    · exact ihR (fun y hy => hno y (by simp [hy])) x hx e he hbad
+  | single c rest s es obj altR h1 h2 _ _ _ _ ihR =>
+    intro x hx e he hbad
+    simp only [List.mem_cons] at hx
+    rcases hx with rfl | hx
+    · simp only at he
+      rw [h1] at he
+      injection he with he
+      subst he
+      rw [h2] at hbad
+      exact absurd hbad.1 (by decide)
+    · exact ihR (fun y hy => hno y (by simp [hy])) x hx e he hbad
+
 theorem Good.forest {st : PhSt} {de : List (Nat × Tree)} {ks : List Tree} {alt : Alt} (h : Good st de ks alt)
-    (ha : Above st) :
+    (ha : Above st) (hT : TableOK st) (hC : Closed st) :
     ∃ rs, normL rs = normL ks ∧ PlainL st rs ∧
       ∀ (rest : List (Sum Str Char)) (rtext : Option Str) (acc : List Tree) (r : Option Str × List Tree),
         (∃ M, ∀ f, M ≤ f → undoSegs f st de rest rtext (rs.reverse ++ acc) = .ok r) →
@@ -402,7 +447,7 @@ theorem Good.forest {st : PhSt} {de : List (Nat × Tree)} {ks : List Tree} {alt 
             Sum.inr cl :: (Sum.inl (strOf c.payload.tail) :: (piecesOf altR ++ rest0))) := by
         simp [piecesOf, piecesOf_append]
       rw [hpieces]
-      have hcol := collectUntil_alt cl.toNat altK hno cl rfl (strOf c.payload.text) []
+      have hcol := collectUntil_alt st cl.toNat altK hno (gK.no_open_closing hT hC cl.toNat hno) cl rfl (strOf c.payload.text) []
         (Sum.inl (strOf c.payload.tail) :: (piecesOf altR ++ rest0))
       rw [List.nil_append] at hcol
       rw [segs_open g st de o eo obj (.node 0 P2 rsK) [] _ _ inner rtext acc h1 h2 h4 (by rw [h3]; exact hcol)
@@ -419,12 +464,13 @@ theorem Good.alt_ne_nil {st : PhSt} {de : List (Nat × Tree)} {ks : List Tree} {
 
 /-- `undo_element` on a text element whose children were replaced by a good placeholder text gives the element
 back, up to the normal form -/
-theorem undoElement_of_good (st : PhSt) (de : List (Nat × Tree)) (ha : Above st) (i : Nat) (p : Payload)
+theorem undoElement_of_good (st : PhSt) (de : List (Nat × Tree)) (ha : Above st) (hT : TableOK st) (hC : Closed st)
+    (i : Nat) (p : Payload)
     (ks : List Tree) (alt : Alt) (hG : Good st de ks alt) (hk : ks ≠ [])
     (hlt : Low (strOf p.text)) (hltl : Low (strOf p.tail)) :
     ∃ r, normT r = normT (.node i p ks) ∧ ∃ N, ∀ f, N ≤ f →
       undoElement f st de (.node i { p with text := some (strOf p.text ++ flatAlt alt) } []) = .ok (r, []) := by
-  obtain ⟨rs, nrs, prs, crs⟩ := hG.forest ha
+  obtain ⟨rs, nrs, prs, crs⟩ := hG.forest ha hT hC
   have hAK := hG.altOK ha
   have ht := plainFor_of_low st ha _ hlt
   have htl := plainFor_of_low st ha _ hltl
